@@ -146,6 +146,10 @@ def clampDen (γ : Rat) : Rat := if 1 - γ < Gen.C03Src.clamp then Gen.C03Src.cl
 
 /-- `ir.row(a).minCoeff()` -/
 def minRa (m : POMDP) (a : Nat) : Rat := minTo (m.S - 1) (fun s => m.R s a)
+/-- the slack that pays for probability mass `D` dropped per (pseudo-state, action) when `C·mass` bounds the value of what is dropped:
+    `e = C·D/(1−γ)`  (Props/C03Trunc: `truncSlack_pays`, `anytimeT_sound`) -/
+def truncSlack (γ C D : Rat) : Rat := C * D / (1 - γ)
+
 /-- `ir.maxCoeff()` -/
 def maxRall (m : POMDP) : Rat := maxTo (m.S - 1) (fun s => maxTo (m.A - 1) (m.R s))
 def minRall (m : POMDP) : Rat := minTo (m.S - 1) (fun s => minTo (m.A - 1) (m.R s))
